@@ -41,19 +41,19 @@ var errRetry = errors.New("retry")
 
 // ScriptServer is the synchronous server state machine.
 type ScriptServer struct {
-	S       *Script
-	buf     []byte
-	consumed int
-	state   int // 0 hello, 1 addendum, 2 idle, 3 external data, 4 input data
+	S         *Script
+	buf       []byte
+	consumed  int
+	state     int // 0 hello, 1 addendum, 2 idle, 3 external data, 4 input data
 	ClientRev int
-	Rev     int // negotiated
-	Packets []ClientPacket
-	Err     error // first protocol error seen in the client stream
-	ErrAt   int
-	curQuery *ref.Query
-	nData   int
-	Hello   ref.ServerHello
-	inQuery bool
+	Rev       int // negotiated
+	Packets   []ClientPacket
+	Err       error // first protocol error seen in the client stream
+	ErrAt     int
+	curQuery  *ref.Query
+	nData     int
+	Hello     ref.ServerHello
+	inQuery   bool
 	// Aborted: the script sent an exception for the current query; reactions are suppressed and
 	// a new request is accepted at the next packet boundary.
 	Aborted bool
